@@ -718,11 +718,11 @@ def plan(tier):
       Enum("seq-prio", lambda: _enum("prio", 4), shards=16),
       Enum("seq-remove", lambda: _enum("remove", 3), shards=8),
       Enum("seq-weak", lambda: _enum("weak", 3), shards=8),
-      Hyp("histories", lambda: _strategy(tier), examples=4000, shards=16),
+      Hyp("histories", lambda: _strategy(tier), examples=3000, shards=16),
     ]
   return [
     Enum("seq-prio", lambda: _enum("prio", 5), shards=16),
     Enum("seq-remove", lambda: _enum("remove", 4), shards=16),
     Enum("seq-weak", lambda: _enum("weak", 4), shards=16),
-    Hyp("histories", lambda: _strategy(tier), examples=120000, shards=16),
+    Hyp("histories", lambda: _strategy(tier), examples=250000, shards=16),
   ]
